@@ -8,6 +8,8 @@ import io
 import json
 import os
 import sys
+if hasattr(sys, "set_int_max_str_digits"):
+    sys.set_int_max_str_digits(0)          # exact rational evaluation of iterated estimators produces very long integers
 import traceback
 import contextlib
 
